@@ -1186,16 +1186,25 @@ func (c *DefaultCtx) Path(override ...string) string {
 // The new path may be served by another bucket of the route tree, where the numeric index of the
 // current route would point at an unrelated route, so that Next() would skip or repeat routes.
 // Buckets are sorted by registration position: continue with the first route behind the current one.
+// Positions are comparable within the tree of the route's own method only; when the method was
+// overridden as well, the cursor is derived there and then carried over to the current method's tree.
 func (c *DefaultCtx) syncIndexRoute() {
 	if c.route == nil || c.methodInt < 0 || c.methodInt >= len(c.app.treeStack) {
 		return
 	}
-	tree, ok := c.app.treeStack[c.methodInt][c.treePathHash]
+	own := c.app.methodInt(c.route.Method)
+	if own < 0 || own >= len(c.app.treeStack) {
+		own = c.methodInt
+	}
+	tree, ok := c.app.treeStack[own][c.treePathHash]
 	if !ok {
-		tree = c.app.treeStack[c.methodInt][0]
+		tree = c.app.treeStack[own][0]
 	}
 	pos := c.route.pos
 	c.indexRoute = sort.Search(len(tree), func(i int) bool { return tree[i].pos > pos }) - 1
+	if own != c.methodInt {
+		c.syncIndexRouteMethod(own)
+	}
 }
 
 // Scheme contains the request protocol string: http or https for TLS requests.
